@@ -17,10 +17,17 @@ void     __vf_set_now(int64_t t);     // model steady_clock reading
 // Property-tagged assertion.  A query is compiled for exactly one property (-DPROP=n); the
 // clauses of all other properties are compiled out, so every query has its own obligations.
 // PROP==0 is the inductiveness of the representation invariant, 99 is the vacuity witness.
+// (The replay on the real build selects the property at run time instead.)
+#ifdef VF_RUNTIME_PROP
+extern int g_prop;
+#define VF_PROP_SEL g_prop
+#else
+#define VF_PROP_SEL PROP
+#endif
 #define VF_P(p, n, cond)                                                                                               \
     do                                                                                                                 \
     {                                                                                                                  \
-        if (PROP == (p))                                                                                               \
+        if (VF_PROP_SEL == (p))                                                                                        \
             __vf_assert((cond), (p)*1000 + (n));                                                                       \
     } while (0)
 // reachability witness: in the -DPROP=99 twin each VF_REACH must come back *violated*
